@@ -92,6 +92,9 @@ type c17World struct {
 	nw     int
 	acts   []int64
 
+	evictFailed bool // the last reconcile's Evict call was failed by the fault mask
+	nodeBefore  string // job.Status.NodeName as persisted when the running reconcile started
+
 	// oracle bookkeeping
 	anyFault   bool
 	evictCalls int
@@ -154,6 +157,7 @@ func (e *c17Evictor) Evict(ctx context.Context, job *sev1alpha1.PodMigrationJob,
 	w := e.w
 	ok := w.write(6, int64(c17Code(string(pod.UID), "u")))
 	w.oracleEvict(pod)
+	w.evictFailed = !ok
 	if !ok {
 		return c17ErrInjected
 	}
@@ -603,7 +607,12 @@ func (w *c17World) oracleEvict(pod *corev1.Pod) {
 		w.h.Tag("evict:after-preemption")
 	}
 	if r.Status.NodeName != "" && r.Status.NodeName == pod.Spec.NodeName {
-		w.h.Fail("C17:evict-unsecured:same-node", "Evict called while the reservation sits on the pod's own node %q", pod.Spec.NodeName)
+		if w.nodeBefore != "" {
+			// the job recorded its target node in an EARLIER reconcile; pod or reservation changed since
+			w.h.Fail("C17:evict-unsecured:same-node:node-check-stale", "Evict called while the reservation sits on the pod's own node %q (the same-node check was made in an earlier reconcile, job.Status.NodeName=%q)", pod.Spec.NodeName, w.nodeBefore)
+		} else {
+			w.h.Fail("C17:evict-unsecured:same-node", "Evict called while the reservation sits on the pod's own node %q", pod.Spec.NodeName)
+		}
 	}
 	if r.Status.Phase == sev1alpha1.ReservationSucceeded {
 		if len(r.Status.CurrentOwners) == 0 || r.Status.CurrentOwners[0].UID != pod.UID {
@@ -619,6 +628,8 @@ func (w *c17World) reconcile(faults uint64) {
 	before := w.getJob()
 	resvBefore := w.getResv()
 	w.faults, w.nw, w.acts = faults, 0, w.acts[:0]
+	w.evictFailed = false
+	w.nodeBefore = before.Status.NodeName
 	h.Op("rec %d", faults)
 	panicked := h.Guard(func() {
 		_, _ = w.r.Reconcile(context.TODO(), reconcile.Request{NamespacedName: types.NamespacedName{Name: c17JobName}})
@@ -734,6 +745,23 @@ func (w *c17World) envEvent(r *vRand, helpful bool) {
 		podNode = pod.node
 	}
 	otherNode := podNode%3 + 1
+	if w.evictFailed && rv != nil && rv.node != 0 && r.Chance(1, 2) {
+		// adversarial: the eviction call just failed; before the retry the pod is replaced by a same-name pod on the
+		// reservation's node, or the reservation is re-scheduled onto the pod's node
+		if r.Bool() || pod == nil {
+			uid := 5
+			if pod != nil {
+				uid = pod.uid%6 + 1
+			}
+			w.setPod(&c17Pod{uid: uid, node: rv.node, sched: 2})
+			h.Tag("env:pod-replaced-on-reservation-node")
+		} else {
+			rv.node = podNode
+			w.setResv(rv)
+			h.Tag("env:resv-moved-to-pod-node")
+		}
+		return
+	}
 	if helpful {
 		// push the job forward along the happy path
 		_, ev := utilGetCond(&job.Status, sev1alpha1.PodMigrationJobConditionEviction)
@@ -787,6 +815,9 @@ func (w *c17World) envEvent(r *vRand, helpful bool) {
 		h.Tag("env:pod-deleted")
 	case 3, 4: // pod replaced (same name, new uid) or re-created
 		uid := r.Range(1, 4)
+		if pod != nil && uid == pod.uid {
+			uid = pod.uid + 1
+		}
 		np := &c17Pod{uid: uid, node: r.Range(0, 3), pending: r.Chance(1, 4)}
 		if np.pending && r.Bool() {
 			np.node, np.sched, np.msg = 0, 1, r.Range(0, 3)
